@@ -231,6 +231,21 @@ CHECKS = {
              "finding (TLC counterexample + ASan confirmation). Returned objects always get the static MATLAB class "
              "(the generator passes isVirtual=false), which the model transcribes.",
         design="6/C11"),
+    "C09": dict(
+        category="model_checking",
+        technique="static clauses on the scanned unit (PyBind machine + token checks) and g++ -fsyntax-only of the "
+                  "generated unit against a library header rendered from the tree the TLA+ derivation machine emitted "
+                  "('exec' profile)",
+        text="Static: balanced constructs, no template parameter or `This` left as an unqualified identifier, variables "
+             "defined once, lambda arity = keyword arguments (C04 record). Executed: for random derivations of the exec "
+             "profile (library types with nested typedefs, templates, smart/raw pointers, literal defaults, operators, "
+             "enums, inheritance, member-level templates, typedef instantiations, namespaces) the unit must compile with "
+             "the repository's pybind11 headers against the rendered declarations; the header alone is compiled first "
+             "as a control.",
+        note="One canonical conforming library per interface (not 'any'). Syntax-only: no linking / import. The exec "
+             "profile excludes constructs for which no library can be rendered mechanically (free-form default "
+             "expressions, includes, forward declarations, numeric template arguments).",
+        design="6/C09"),
 }
 
 NOT_YET = "not yet built in this session; planned per DESIGN.md section 6"
